@@ -1,12 +1,45 @@
-(* C01 — a snapshot shows exactly what TTML makes active at t.  M = Model/Isd.v, S = Spec/IsdSpec.v. *)
-From TT Require Import Model.Doc Gen.StyleTables Model.Isd Spec.IsdSpec Proofs.C01.Leaves.
+(* C01 — a snapshot shows exactly what TTML makes active at t.
+   M = Model/Isd.v (transcription of ISD._process_element and helpers), S = Spec/IsdSpec.v (per-leaf, path-based
+   reading of TTML2 time containment, region association and display).  For every document and rational t. *)
+From TT Require Import Model.Doc Gen.StyleTables Model.Isd Spec.IsdSpec.
+From TT Require Import Proofs.C01.Leaves Proofs.C01.Display Proofs.C01.Lwsp Proofs.C01.Main.
 
 (* time containment: begin inclusive, end exclusive, offsets relative to the parent's begin, end clipped *)
-Theorem C01_interval : forall b e pb pe, make_absolute b e (Some pb) pe = resolve (pb, pe) b e.
-Proof. exact make_absolute_resolve. Qed.
-Theorem C01_interval_root : forall b e, make_absolute b e None None = resolve root_interval b e.
-Proof. exact make_absolute_root. Qed.
+Theorem C01_interval : forall b e pb pe, make_absolute b e pb pe = resolve (pint pb pe) b e.
+Proof. exact make_absolute_pint. Qed.
 Theorem C01_active : forall t iv, active_at t iv = is_active t iv.
 Proof. exact active_at_is_active. Qed.
 
-Print Assumptions C01_interval.  Print Assumptions C01_interval_root.  Print Assumptions C01_active.
+(* display: the value M's style resolution gives tts:display is the cascade set step > specified > initial > auto *)
+Theorem C01_display : forall d t a par iv st,
+  style_phase d t a par iv = Ok st -> display_none st = negb (displayed d t iv a).
+Proof. exact style_phase_display. Qed.
+
+(* white-space handling never adds, drops, duplicates or reorders a line break or a non-white-space character *)
+Theorem C01_lwsp_conservative : forall a cs, flat_map shown_leaves (lwsp_children a cs) = flat_map shown_leaves cs.
+Proof. exact lwsp_children_keeps. Qed.
+
+(* MAIN: below any element, the snapshot shows exactly the Br/Text leaves whose whole chain of ancestors is active
+   at t, selected for the region and not display:none — once each, in document order (the specification filters
+   the document-order list of leaf chains; nothing is added, lost, duplicated or moved) *)
+Theorem C01_leaves_element : forall d t sel dflt e inh par pb pe r, leaf_wf e = true ->
+  proc d t sel inh par pb pe e = Ok r -> leaves_opt r = spec_rec d t sel dflt (pint pb pe) inh e.
+Proof. exact proc_leaves. Qed.
+(* ... and for a whole region of the snapshot: also requires the region itself to be active and displayed *)
+Theorem C01_leaves_region : forall d t sel r res,
+  e_kind (eattrs r) = KRegion -> match d_body d with Some b => leaf_wf b = true | None => True end ->
+  proc_region d t sel r = Ok res -> leaves_opt res = leaves_spec d t (eattrs r) sel.
+Proof. exact region_leaves. Qed.
+(* the snapshot is the list of surviving regions in region order (nothing moves to another region) *)
+Theorem C01_snapshot_regions : forall l rs, collect_regions l = Ok rs ->
+  exists outs, Forall2 (fun r o => r = Ok o) l outs /\ rs = flat_map (fun o => match o with Some e => [e] | None => [] end) outs.
+Proof. exact collect_regions_spec. Qed.
+
+(* non-vacuity and boundary inclusivity: begin is inclusive, end exclusive *)
+Example C01_boundaries :
+  is_active (Qmake 2 1) (Qmake 2 1, Some (Qmake 5 1)) = true /\ is_active (Qmake 5 1) (Qmake 2 1, Some (Qmake 5 1)) = false.
+Proof. split; reflexivity. Qed.
+
+Print Assumptions C01_interval.  Print Assumptions C01_active.  Print Assumptions C01_display.
+Print Assumptions C01_lwsp_conservative.  Print Assumptions C01_leaves_element.  Print Assumptions C01_leaves_region.
+Print Assumptions C01_snapshot_regions.
